@@ -80,6 +80,8 @@ def library():
     add("table-2x2", lambda k: ("table", [[("c", [T(k)]), ("c", [T(k)])], [("c", [T(k)]), ("c", [T(k)])]], False, None))
     add("table-header", lambda k: ("table", [[("c", [T(k)]), ("c", [T(k)])], [("c", [T(k)]), ("c", [T(k)])]], True, None))
     add("table-caption", lambda k: ("table", [[("c", [T(k)]), ("c", [T(k)])], [("c", [T(k)]), ("c", [T(k)])]], False, [T(k)]))
+    add("table-1x1-caption", lambda k: ("table", [[("c", [T(k), T(k)])]], False, [T(k)]))
+    add("table-2x1-caption", lambda k: ("table", [[("c", [T(k)])], [("c", [T(k)])]], False, [T(k)]))
     add("table-styled", lambda k: ("table", [[("c", [("b", [T(k)])]), ("c", [("link", k(), [T(k)])])], [("c", [T(k)]), ("c", [("i", [T(k)])])]], False, None))
     add("table-list", lambda k: ("table", [[("cb", [("list", "*", [([T(k)], None), ([T(k)], None)])]), ("c", [T(k)])],
                                            [("c", [T(k)]), ("c", [T(k)])]], False, None))
